@@ -2092,19 +2092,19 @@ def m2(prog, tier="quick"):
     for e in prog.enums.values():
         if e["file"] == "/usr/include/dwarf.h":
             for c in e["consts"]:
-                if c["n"] in ("DW_TAG_partial_unit", "DW_TAG_compile_unit"):
+                if c["n"] in ("DW_TAG_partial_unit", "DW_TAG_compile_unit", "DW_TAG_type_unit", "DW_TAG_skeleton_unit"):
                     tags[c["n"]] = c["v"]
     don_enum = None
     for e in prog.enums.values():
         if e["q"] == "doneness":
             don_enum = {c["n"]: ("enum", c["n"], c["v"]) for c in e["consts"]}
-    if len(tags) != 2 or don_enum is None:
+    if len(tags) != 4 or don_enum is None:
         raise Broken("enumerations needed by M2 not found")
 
     class Unit:
         def __init__(self, dw, idx, kind):
             self.dw, self.idx, self.kind = dw, idx, kind
-            self.tag = tags["DW_TAG_partial_unit" if kind == "P" else "DW_TAG_compile_unit"]
+            self.tag = tags[{"P": "DW_TAG_partial_unit", "C": "DW_TAG_compile_unit", "T": "DW_TAG_type_unit", "S": "DW_TAG_skeleton_unit"}[kind]]
             self.off = 0x10 * idx + 0xb
             self.cuobj = Obj("Dwarf_CU")
             self.cuobj.unit = self
@@ -2172,6 +2172,8 @@ def m2(prog, tier="quick"):
     seqs = [()]
     for n in range(1, maxlen + 1):
         seqs += list(itertools.product("CP", repeat=n))
+    # units that are neither compile nor partial units (type units of -fdebug-types-section, split-DWARF skeletons) are units too
+    seqs += [("T",), ("S",), ("T", "C"), ("C", "T", "P"), ("P", "S")]
     key = "M2:dwarf_unit_producer"
     bad = None
     n_eval = 0
@@ -2190,7 +2192,7 @@ def m2(prog, tier="quick"):
                         if v is None:
                             break
                         got.append(v)
-                    want = [u for d in dwctx.dwarfs for u in d.units if don == "raw" or u.kind == "C"]
+                    want = [u for d in dwctx.dwarfs for u in d.units if don == "raw" or u.kind != "P"]
                     seq = [getattr(getattr(g, "m_cu", None), "unit", None) for g in got]
                     desc = " | ".join("".join(c) or "-" for c in combo)
                     if seq != want and bad is None:
@@ -2257,6 +2259,16 @@ def i2(prog):
     # compile_unit 0x11, partial_unit 0x3c, type_unit 0x41, skeleton_unit 0x4a, 0x4999 (vendor/unknown)
     D1 = build("file1", 0x1000, [0x11, 0x3c, 0x4a])
     D2 = build("file2", 0x2000, [0x41, 0x4999])
+    # a unit with 70 lexical blocks nested in one another (generated code, deep template instantiations) and a DIE after them
+    D3 = build("file3", 0x3000, [0x11])
+    cur = D3.units[0]
+    for i_ in range(70):
+        cur = N(D3, 0x100 + 4 * i_, 0x0b, cur)
+    N(D3, 0x100 + 4 * 70, 0x34, cur)
+    N(D3, 0x100 + 4 * 72, 0x24, D3.units[0])
+    import sys as _sys
+    _old_limit = _sys.getrecursionlimit()
+    _sys.setrecursionlimit(max(_old_limit, 20000))
 
     def all_nodes(dw):
         out = []
@@ -2325,7 +2337,7 @@ def i2(prog):
         "throw_libdw": lambda ev, o, a: (_ for _ in ()).throw(Thrown("libdw error")),
     }
     ev = CxxEvaluator(hooks, {"parent_cache::no_off": NO_OFF}, prog=prog)
-    nodes = all_nodes(D1) + all_nodes(D2)
+    nodes = all_nodes(D1) + all_nodes(D2) + all_nodes(D3)
     orders = [nodes, list(reversed(nodes)), nodes[7:] + nodes[:7], [n for n in nodes if n.parent is not None] + [n for n in nodes if n.parent is None]]
     bad_r = bad_p = None
     n_eval = 0
